@@ -85,7 +85,8 @@ def sweep(pid, cfg, repo, generated=False):
         import gen_inputs
         from concurrent.futures import ThreadPoolExecutor
         for kind in dict.fromkeys(w["kind"] for w in ws):
-            inputs = gen_inputs.generate(kind)
+            # (VERIF_SEED selects another deterministic set of inputs; seeds 1..8 were run on the unchanged tree)
+            inputs = gen_inputs.generate(kind, int(os.environ.get("VERIF_SEED", "0") or 0) or 20260922)
             if generated == "quick":
                 inputs = inputs[::5]          # (every fifth input: the quick tier explores a fifth of the bound)
             if not inputs:
